@@ -110,7 +110,16 @@ def check_partition(case):
         if np.abs(np.delete(c, excl) - cu).max() != 0:
             fails.append(fail('removing and re-inserting prescribed amplitudes are not inverse operations', sig=None, case=case))
         c2 = cc.calc_full_c(exp.copy() / np.where(np.isin(np.arange(size), excl), inc, 1.0), inc=inc) if inc != 0 else None
-    return dict(fails=fails[:5], execs=6, nontrivial=1)
+    # same-object history: prescribed values changed after an earlier evaluation must be the ones re-inserted
+    cc.uTM, cc.thetaTdeg, cc.betadeg = 5.5e-4, -0.7, 0.05
+    cc.calc_fext(silent=True)            # any public evaluation refreshes the derived data
+    c = cc.calc_full_c(cu.copy(), inc=1.0)
+    ck = {0: cc.uTM, 1: np.deg2rad(cc.thetaTdeg), 2: cc.r2 * np.tan(np.deg2rad(cc.betadeg))}
+    for d in excl:
+        if abs(c[d] - ck[d]) > 1e-15 + 1e-12 * abs(ck[d]):
+            fails.append(fail('prescribed values changed on a re-used shell are not the ones re-inserted by calc_full_c', sig=None, case=case,
+                              amplitude=d, got=float(c[d]), expected=float(ck[d])))
+    return dict(fails=fails[:5], execs=8, nontrivial=1)
 
 
 def build_load(case):
